@@ -1,4 +1,6 @@
 """C04 SAT-based subcircuit minimization returns an equivalent, not larger circuit."""
+import json
+import pathlib
 import re
 import time
 
@@ -24,17 +26,20 @@ PARTIAL = {
         'returned by a SAT solver and on a hand-written search loop (cut filtering, node states, the mixed '
         'trivial/negated-output branch, _rename_subcircuit_gates); none of that is modelled or verified. The clauses '
         '"same inputs / outputs / truth table, not more gates, no FailedValidationError, no internal error" are checked '
-        'end to end by the oracle on every run (several root causes are recorded as known findings). What is proved: '
+        'end to end by the oracle on every run (the root causes found this way are repaired by fixes/D30..D39; their '
+        'failing inputs are kept as a fixed corpus). What is proved: '
         'the pattern simulation for all widths and the soundness of a validator for single replacement steps',
     'C04_care_set_substitution_partial':
         'validator form of the care-set substitution theorem of DESIGN 7/C04: stated for the circuits before and '
         'after a step that check_subst accepts (frame conditions are checked executably on the two states), not as a '
         'theorem about the function replace_subcircuit; labels of leaves and outputs are the same before and after '
-        '(what _rename_subcircuit_gates arranges); silent about the replaced internal gates (their labels are reused); '
+        '(what _rename_subcircuit_gates arranges); silent about the replaced internal gates (their labels are reused; '
+        'a gate of the cone whose label, type and operands happen to be the same before and after but which depends on '
+        'a replaced internal gate counts as replaced); '
         'the care-set hypothesis is discharged per step by care_covers (C04_care_covers_sound) or by comparing all '
         '2^k leaf vectors. Frame conditions checked on the two states: the new circuit is acyclic (a checked '
-        'operands-first order), the leaves survive and are not cone outputs, no untouched gate other than a cone output '
-        'reads a replaced internal gate, same interface, only cone gates touched. The steps of the "all outputs '
+        'operands-first order), the leaves survive and are not cone outputs, no gate outside the replaced internal gates '
+        'other than a cone output reads one of them, same interface, only cone gates touched. The steps of the "all outputs '
         'trivial" branch have their own validator (check_merge, C04_merge_substitution), also in validator form',
 }
 LEVEL_CATEGORY = 'translation_validation'
@@ -50,13 +55,14 @@ LEVEL_TEXT = ('translation validation with a verified validator, plus proof of t
               'the model (exact state equality) and accepted by check_subst on all 2^k leaf vectors or on the care set '
               '(with care_covers); each trivial-branch merge is recorded (state before / after) and accepted by '
               'check_merge. The search is not verified: '
-              'the end-to-end clauses are checked by brute force on every generated run; known defects are listed in '
-              'known_findings.json')
+              'the end-to-end clauses are checked by brute force on every generated run and on the fixed corpus '
+              '(harness/corpus/C04: minimal failing inputs of the defects repaired by fixes/D30..D39)')
 LEVEL_NOTE = ('Coq kernel + vm_compute; translator t5 (Python ast -> Gallina, N arithmetic; UnsupportedOperationError is '
               'modelled as Err GenerationError); hand-written model of the simulation loops and of replace_subcircuit; '
               'recorder that wraps Circuit.replace_subcircuit, Circuit.get_gate_users / remove_gate (calls made from the '
               'frame of minimize_subcircuits) and _Subcircuit.evaluate_truth_table_with_dont_cares from the harness '
-              'process; the model is of the code repaired by fixes/D25.patch; pysat / mockturtle shims (the real cut enumerator and solver are absent: any valid cut '
+              'process; the model is of the code repaired by fixes/D25.patch and fixes/D33.patch (cone outputs: circuit '
+              'outputs, gates without users, gates used outside the cut\'s node set or by a leaf); pysat / mockturtle shims (the real cut enumerator and solver are absent: any valid cut '
               'family is inside the property\'s quantifier, each step is validated rather than assumed). Hypotheses of the '
               'theorems: NoDup leaves, cone_okb (supported types, operand count that eval_pattern reads completely, operands '
               'before users), operands < 2^(2^n); '
@@ -68,8 +74,9 @@ TRUSTED = ['hypotheses of C04_eval_pattern_den / C04_patterns_are_truth_tables, 
            'types two or more - eval_pattern ignores surplus operands of NOT and of the comparison types '
            '(C04_cex_surplus_operand; such gates cannot be evaluated by cirbo either: their operator raises TypeError); '
            '(b) cone_okb - every operand of a cone node is a leaf or an earlier listed node, otherwise the defaultdict '
-           'supplies pattern 0 (C04_cex_missing_node; this is the recorded finding for cut families not closed under '
-           'sub-cuts); (c) operands < 2^(2^n): the model uses N, where max_pattern - x truncates at 0 while Python would '
+           'supplies pattern 0 (C04_cex_missing_node; this was the defect for cut families not closed under '
+           'sub-cuts, repaired by fixes/D30.patch: the node set of a cut is closed under operands down to the leaves, and '
+           'the check reports a cone that violates cone_okb for every cut family); (c) operands < 2^(2^n): the model uses N, where max_pattern - x truncates at 0 while Python would '
            'go negative (the theorem shows the range is preserved)',
            'the model is of the REPAIRED eval_pattern (fixes/D25.patch: the n-ary types AND OR XOR NAND NOR NXOR are folded '
            'over all operands; the unrepaired code read only the first two and changed the circuit function, e.g. inputs '
@@ -80,11 +87,22 @@ ASSUMPTIONS = ['the circuits generated for the end-to-end runs use NOT with one 
                'the n-ary types with two (85%) or three to four operands, possibly repeated (harness/subcorr.py)',
                'recorded steps whose replace_subcircuit / remove_gate call raises are replayed through the model (same error '
                'kind) but there is no result state to validate',
-               'a step rejected by the validator on a run whose cut family is not closed under sub-cuts is attributed to '
-               'the recorded known finding (wrong patterns) even when the end-to-end oracle passes (error masked at the '
-               'outputs); on the full cut family such a step is reported as a disagreement',
+               'a step rejected by the validator on a run whose end-to-end oracle passes is reported as a disagreement for '
+               'every cut family (the exception for families not closed under sub-cuts ended with fixes/D30.patch)',
+               'the stand-in SAT solver gives up after 5,000,000 propagations of one call (deterministic) and the harness '
+               'reports this as SolverTimeOutError, the outcome of solver_time_limit_sec; minimize_subcircuits then skips '
+               'that subcircuit (exact synthesis with 5 leaves and 8 gates can otherwise take picosat tens of minutes)',
                'FailedValidationError on circuits with an XOR/NXOR gate of three or more operands whose result is otherwise '
                'correct is attributed to defect D2 (Tseytin templates, property C05) and recorded as a known finding']
+
+
+CORPUS_FILE = pathlib.Path(__file__).resolve().parent.parent / 'harness' / 'corpus' / 'C04' / 'regressions.json'
+
+
+def corpus_cases():
+    """fixed cases: the minimal failing inputs of the defects repaired by fixes/D30..D39 (the former known
+    findings and the inputs found while repairing them); they fail the oracle on the unrepaired library"""
+    return [dict(e['case']) for e in json.loads(CORPUS_FILE.read_text())]
 
 
 def gen_case(rng, i):
@@ -108,8 +126,9 @@ def correspondence(ctx, model_ok):
     runs = []
     merges = []
     closed = []     # per run: was the supplied cut family closed under sub-cuts
-    for i in range(ctx.n(250, 3000)):
-        case = gen_case(ctx.rng, i)
+    fixed = corpus_cases()
+    for i in range(len(fixed) + ctx.n(250, 3000)):
+        case = fixed[i] if i < len(fixed) else gen_case(ctx.rng, i)
         run_case = dict(case)
         with patcorr.recording() as rec:
             res = subcorr.run_minimize(run_case)
@@ -121,21 +140,20 @@ def correspondence(ctx, model_ok):
         r.count('outcome', 'returned' if res[0] == 'ok' else f'{res[1]}@{res[2]}')
         r.count('basis', case['basis'].upper())
         r.count('cut_family', 'full' if case['cut_seed'] is None else 'random sub-family')
+        r.count('source', 'fixed corpus' if i < len(fixed) else 'generated')
     r._cases = cases
     # translation validation of every recorded replace_subcircuit call (model replay + check_subst)
     # A step that the validator rejects is a wrong replacement (or one the validator cannot certify).  When
-    # the run nevertheless satisfies the end-to-end oracle this is reported as a disagreement - except on runs
-    # whose cut family is not closed under sub-cuts: there wrong patterns (and hence locally wrong
-    # replacements) are the recorded known finding, and the oracle passing only means the error is masked
-    # at the outputs (or the run died later with an excluded internal error).
+    # the run nevertheless satisfies the end-to-end oracle this is reported as a disagreement, whatever the
+    # cut family was (until fixes/D30.patch a cut family that is not closed under sub-cuts gave wrong patterns
+    # and hence locally wrong replacements; that exception is gone).
     def judge(kind, i, st, why, case):
         msg = oracle(dict(case))
         if msg is not None:
             r.count(kind, 'rejected step on a run that fails end to end: ' + classify(case, msg))
-        elif not closed[i]:
-            r.count(kind, 'rejected step, error masked at the outputs, cut family not closed (known finding)')
         else:
-            r.disagreements.append({'name': 'a step is rejected by the validator on a run (full cut family) whose '
+            r.disagreements.append({'name': 'a step is rejected by the validator on a run (cut family '
+                                            + ('closed' if closed[i] else 'not closed') + ' under sub-cuts) whose '
                                             'end-to-end oracle passes', 'case': case,
                                     'detail': {'kind': kind, 'why': why, 'step': {k: st[k] for k in st
                                                                                  if k in ('imap', 'omap', 'o', 'l')}}})
